@@ -267,6 +267,18 @@ func runC19(ctx *Ctx) error {
 		// non-ASCII text and a description padded to move the chunk boundary
 		// (also text that documents JSON escapes: a backslash followed by u003c is six characters of text, not "<")
 		doc["info"].(J)["description"] = strings.Repeat("é日本 \"quoted\" \\ ", 1+r.Intn(3)) + "<&> \\u003c \\u0026 \\u003e " + strings.Repeat("x", i%83)
+		// enums that list null (nullable enums), first, in the middle and last, on a schema every configuration keeps: the
+		// value lists of the embedded specification are the document's
+		if comps, ok := doc["components"].(J); ok && i%2 == 0 {
+			if sc, ok := comps["schemas"].(J); ok {
+				sc["ZzNullableLevel"] = J{"type": "object", "properties": J{
+					"mid":   J{"type": "string", "nullable": true, "enum": []interface{}{"low", nil, "high"}},
+					"first": J{"type": "string", "nullable": true, "enum": []interface{}{nil, "fixed", "wontfix"}},
+					"last":  J{"type": "integer", "nullable": true, "enum": []interface{}{1, 2, nil}}}}
+				doc["paths"].(J)["/zz/levels"] = J{"get": J{"operationId": "getZzLevels", "responses": J{"200": J{"description": "d",
+					"content": J{"application/json": J{"schema": J{"$ref": "#/components/schemas/ZzNullableLevel"}}}}}}}
+			}
+		}
 		var fc fcfg
 		switch r.Intn(4) {
 		case 0:
